@@ -114,12 +114,21 @@ type c14Meta struct {
 	MustReject   bool   `json:"must_reject,omitempty"`
 	Methods      int    `json:"methods"` // number of converter-interface methods (for exit 0)
 	Note         string `json:"note,omitempty"`
+	// Args/Env: an odd invocation (part c); the demands on a successful run's default output do not apply
+	Args []string `json:"args,omitempty"`
+	Env  []string `json:"env,omitempty"`
 }
 
 var reC14Pos = regexp.MustCompile(`^(.*\.go):(\d+):(\d+): `)
 
 func c14Judge(env *hx.Env, files hx.Files, m c14Meta) (hx.Verdict, string) {
-	o, err := pg.RunModule(env, files)
+	var o *pg.Outcome
+	var err error
+	if m.Args != nil || m.Env != nil {
+		o, err = pg.RunModuleEnv(env, files, m.Env, m.Args...)
+	} else {
+		o, err = pg.RunModule(env, files)
+	}
 	if err != nil {
 		return hx.Failf("harness|io", "%v", err), "harness"
 	}
@@ -131,7 +140,7 @@ func c14Judge(env *hx.Env, files hx.Files, m c14Meta) (hx.Verdict, string) {
 	if o.Res.TimedOut {
 		// hang clause: re-run in isolation three times with the full limit before reporting
 		for i := 0; i < 3; i++ {
-			o2, _ := pg.RunModule(env, files)
+			o2, _ := pg.RunModuleEnv(env, files, m.Env, m.Args...)
 			to := o2.Res.TimedOut
 			o2.Cleanup()
 			if !to {
@@ -199,6 +208,9 @@ func c14Judge(env *hx.Env, files hx.Files, m c14Meta) (hx.Verdict, string) {
 			return hx.Pass, "rejected-with-position"
 		}
 		return hx.Pass, "rejected"
+	}
+	if m.Args != nil || m.Env != nil {
+		return hx.Pass, "accepted"
 	}
 	if m.MustReject {
 		return hx.Failf("C14|accepted-malformed|"+m.Note, "input with a planted malformation (%s) is accepted (exit 0)\n%s\n--- output ---\n%s", m.Note, m.Setup, o.Out), "accepted-malformed"
@@ -517,5 +529,76 @@ func TestC14(t *testing.T) {
 		}
 		rec.Report(rt, v, mk(files, m, "hostile"))
 	})
+	// (c) odd invocations: the same demands (terminates, no crash, a failure comes with a message) for every way of
+	// naming input and output on the command line, over a valid and a rejected setup file
+	t.Run("odd-invocations", func(t *testing.T) {
+		valid := c14Head + "type Convergen interface {\n\t// :typecast\n\tConvertValid(*HA) *HB\n}\n"
+		rejected := c14Head + "type Convergen interface {\n\t// :style sideways\n\tConvertRejected(*HA) *HB\n}\n"
+		idx := 0
+		for si, setup := range []string{valid, rejected} {
+			for _, inv := range c14Invocations {
+				idx++
+				if !mine(env, idx) {
+					continue
+				}
+				m := c14Meta{Setup: setup, Args: inv.Args, Env: inv.Env, Note: inv.Note}
+				if m.Args == nil {
+					m.Args = []string{}
+				}
+				files := c14Files(setup).Set("home/adir/keep.txt", "x\n")
+				v, class := c14Judge(env, files, m)
+				rec.Eval()
+				rec.Class("odd-invocation:" + class)
+				rec.NonTrivial(fmt.Sprint(si, inv))
+				if inv.Note == "output-is-the-setup-file" {
+					rec.Sample(map[string]any{"odd_invocation": inv.Note, "args": inv.Args, "env": inv.Env})
+				}
+				rec.Report(t, v, mk(files, m, "odd-invocation"))
+			}
+		}
+	})
 	_ = sort.Strings
+}
+
+// c14Invocations: every way of getting the command line wrong (or merely unusual). Paths are relative to the module root.
+var c14Invocations = []struct {
+	Note string
+	Args []string
+	Env  []string
+}{
+	{"output-is-the-setup-file", []string{"-out", "home/setup.go", "home/setup.go"}, nil},
+	{"output-is-the-setup-file-dry", []string{"-dry", "-print", "-out", "home/setup.go", "home/setup.go"}, nil},
+	{"output-is-the-setup-file-other-spelling", []string{"-out", "home/../home/./setup.go", "home/setup.go"}, nil},
+	{"output-is-the-setup-file-with-log", []string{"-log", "-out", "home/setup.go", "home/setup.go"}, nil},
+	{"output-is-a-directory", []string{"-out", "home/adir", "home/setup.go"}, nil},
+	{"output-is-the-package-directory", []string{"-out", "home", "home/setup.go"}, nil},
+	{"output-below-a-file", []string{"-out", "home/zoo.go/out.go", "home/setup.go"}, nil},
+	{"output-in-missing-directory-with-log", []string{"-log", "-out", "no/such/dir/out.go", "home/setup.go"}, nil},
+	{"output-is-dev-full", []string{"-out", "/dev/full", "home/setup.go"}, nil},
+	{"output-is-dev-null", []string{"-out", "/dev/null", "home/setup.go"}, nil},
+	{"output-ends-in-log-with-log", []string{"-log", "-out", "home/x.log", "home/setup.go"}, nil},
+	{"output-is-a-sibling-source-file", []string{"-dry", "-out", "home/zoo.go", "home/setup.go"}, nil},
+	{"output-empty-string", []string{"-out", "", "home/setup.go"}, nil},
+	{"input-is-a-directory", []string{"home"}, nil},
+	{"input-is-a-directory-with-slash", []string{"home/"}, nil},
+	{"input-is-the-module-root", []string{"."}, nil},
+	{"input-missing", []string{"no/such/setup.go"}, nil},
+	{"input-is-go-mod", []string{"go.mod"}, nil},
+	{"input-is-a-text-file", []string{"home/adir/keep.txt"}, nil},
+	{"input-is-an-ordinary-file-of-the-package", []string{"home/zoo.go"}, nil},
+	{"input-is-a-file-of-another-package", []string{"ext/ext.go"}, nil},
+	{"input-without-extension-missing", []string{"home/setup"}, nil},
+	{"input-empty-string", []string{""}, nil},
+	{"two-inputs", []string{"home/setup.go", "home/zoo.go"}, nil},
+	{"flags-after-the-input", []string{"home/setup.go", "-dry"}, nil},
+	{"unknown-flag", []string{"-nosuchflag", "home/setup.go"}, nil},
+	{"flag-missing-its-value", []string{"home/setup.go", "-out"}, nil},
+	{"out-flag-last", []string{"-out"}, nil},
+	{"help", []string{"-h"}, nil},
+	{"gofile-missing-file", nil, []string{"GOFILE=no_such.go"}},
+	{"gofile-is-a-directory", nil, []string{"GOFILE=home"}},
+	{"gofile-empty", nil, []string{"GOFILE="}},
+	{"gofile-with-goline-gopackage", []string{"-dry"}, []string{"GOFILE=home/setup.go", "GOLINE=3", "GOPACKAGE=home", "GOARCH=amd64", "GOOS=linux"}},
+	{"gofile-absolute-missing", nil, []string{"GOFILE=/no/such/dir/setup.go"}},
+	{"all-flags-no-input", []string{"-dry", "-print", "-log"}, nil},
 }
